@@ -732,6 +732,9 @@ func (s *lsSim) saveFsError() {
 	saved.terms = nt
 	ud, ju := s.genUpdate(k)
 	at := int64(1 + s.rng.Intn(30))
+	if s.mid {
+		at = int64(1 + s.rng2.Intn(5))
+	}
 	atomic.StoreInt64(&s.inj.n, 0)
 	atomic.StoreInt32(&s.inj.fired, 0)
 	s.inj.noSyncErr = s.flavour == "tan"
@@ -833,6 +836,9 @@ func (s *lsSim) run(steps int) {
 		case c < 55:
 			s.save(0)
 		case c >= 96 && s.crashMode && (s.flavour == "tan" || s.flavour == "tanmux" || s.tid%2 == 0):
+			s.saveFsError()
+		case c >= 90 && s.mid:
+			// records of several blocks: the failing write is one of the handful of writes of one record
 			s.saveFsError()
 		case c < 62 && s.crashMode:
 			// count the file-system operations of a save on a dry run is not possible without
